@@ -26,7 +26,35 @@ def rule_copy_store(ctx: RuleContext, p: Program, rid: str) -> None:
     problems: list[str] = []
     loops = [n for n in walk_no_nested(fn.node) if isinstance(n, ast.For)]
     tok_list = map_name = None
-    if len(loops) != 1:
+    span_texts = {'self._token_store.iter(self.first_token, self.last_token)', 'self.token_store.iter(self.first_token, self.last_token)', 'self.tokens'}
+    aliases = {norm(a.targets[0]) for a in walk_no_nested(fn.node) if isinstance(a, (ast.Assign,)) and (
+        norm(a.value) in span_texts or (isinstance(a.value, ast.Call) and norm(a.value.func) in ('list', 'tuple') and a.value.args
+                                        and norm(a.value.args[0]) in span_texts))}
+    comp_lists = [a for a in walk_no_nested(fn.node) if isinstance(a, (ast.Assign, ast.AnnAssign)) and isinstance(a.value, ast.ListComp)]
+    if not loops and comp_lists:
+        # comprehension idiom: L = [copy.deepcopy(t) for t in SPAN]; M = {id(a): b for a, b in zip(SPAN, L)}
+        for a in comp_lists:
+            c = a.value
+            g = c.generators[0]
+            if len(c.generators) == 1 and not g.ifs and (norm(g.iter) in span_texts | aliases) and isinstance(c.elt, ast.Call) \
+                    and (dotted(c.elt.func) or '') == 'copy.deepcopy' and norm(c.elt.args[0]) == norm(g.target):
+                tok_list = norm(a.targets[0] if isinstance(a, ast.Assign) else a.target)
+                span_used = norm(g.iter)
+        for a in walk_no_nested(fn.node):
+            if isinstance(a, (ast.Assign, ast.AnnAssign)) and isinstance(a.value, ast.DictComp):
+                d = a.value
+                g = d.generators[0]
+                if isinstance(g.iter, ast.Call) and norm(g.iter.func) == 'zip' and len(g.iter.args) == 2 and isinstance(g.target, ast.Tuple) \
+                        and norm(g.iter.args[1]) == tok_list and norm(g.iter.args[0]) in (span_texts | aliases) and not g.ifs \
+                        and norm(d.key) == f'id({norm(g.target.elts[0])})' and norm(d.value) == norm(g.target.elts[1]):
+                    # the originals must be a materialised sequence, not a second traversal of a generator
+                    if norm(g.iter.args[0]) in aliases or norm(g.iter.args[0]) == 'self.tokens':
+                        map_name = norm(a.targets[0] if isinstance(a, ast.Assign) else a.target)
+        if tok_list is None:
+            problems.append('token list is not built from copy.deepcopy of every token of the model\'s span')
+        if map_name is None:
+            problems.append('copy map {id(original): copy} over the same span not found')
+    elif len(loops) != 1:
         problems.append('expected exactly one loop over the model tokens')
     else:
         lp = loops[0]
